@@ -413,6 +413,7 @@ def run_check(prop_id, tier="quick", seed=0, replay=None):
     spec_fail = [j for j in judgements if not j.spec_ok]
     mismatch = [j for j in judgements if j.spec_ok and not j.agree]
     violations = []
+    unreproduced = []
     known_hits = {}
     seen_sigs = set()
     shrink_deadline = time.time() + float(os.environ.get("VERIF_SHRINK_S", "90"))
@@ -430,6 +431,17 @@ def run_check(prop_id, tier="quick", seed=0, replay=None):
             small = shrink(prop, j.case, lambda x: (not x.spec_ok) and (clause is None or x.failed_clause == clause),
                            deadline=min(hard_deadline, shrink_deadline, time.time() + 45))
         js = evaluate(prop, [small])[0]
+        if js.spec_ok:
+            # the (minimised) case does not fail when it is run again; a violation needs a replay that replays:
+            # run the ORIGINAL case twice more and report it if it fails again, otherwise record the failure
+            # as unreproduced (evidence, NOTE line) - not as a violation
+            again = [x for x in evaluate(prop, [j.case, j.case]) if not x.spec_ok]
+            if again:
+                small, js = j.case, again[0]
+            else:
+                unreproduced.append({"case": _trim([j.case])[0], "failed_clause": j.failed_clause,
+                                     "detail": _trim([j.detail])[0] if j.detail is not None else None})
+                continue
         sig = prop.signature(small, js)
         skey = json.dumps(sig, sort_keys=True)
         matched = [f for f in findings if finding_matches(sig, f)]
@@ -449,6 +461,16 @@ def run_check(prop_id, tier="quick", seed=0, replay=None):
         if len(violations) >= 5:
             break
 
+    if not violations and mismatch and not replay:
+        # a disagreement counts only if it shows again when the same case is run again (a loaded machine can make a
+        # real-socket run time out once); the ones that do not are recorded in the evidence
+        again = evaluate(prop, [j.case for j in mismatch[:40]])
+        stable = [j for j, a in zip(mismatch[:40], again) if not a.agree or not a.spec_ok]
+        gone = [j for j, a in zip(mismatch[:40], again) if a.agree and a.spec_ok]
+        for j in gone[:5]:
+            unreproduced.append({"case": _trim([j.case])[0], "failed_clause": "model-implementation-disagreement",
+                                 "detail": _trim([j.detail])[0] if j.detail is not None else None})
+        mismatch = stable + mismatch[40:]
     if not violations and (mismatch or broken):
         # correspondence or proof obligation broken but the spec held on everything seen:
         # targeted search around the mismatching inputs
@@ -499,6 +521,9 @@ def run_check(prop_id, tier="quick", seed=0, replay=None):
 
     for text, n in known_hits.items():
         lines.append(f"KNOWN-FINDING: property={prop_id} {text}")
+    for u in unreproduced[:5]:
+        lines.append(f"NOTE: property={prop_id} a failure of clause {u['failed_clause']} did not reproduce in three further "
+                     f"runs of the same case (recorded in the evidence, not a violation)")
 
     # 5. evidence -------------------------------------------------------------------------
     kinds = {}
@@ -523,6 +548,7 @@ def run_check(prop_id, tier="quick", seed=0, replay=None):
             "traces_validated_against_impl": sum(1 for j in judgements if j.agree),
             "model_impl_mismatches": len(mismatch),
             "spec_failures_on_impl": len(spec_fail),
+            "unreproduced_spec_failures": unreproduced[:5],
             "case_kinds": kinds,
             "corpus_cases": len(corpus),
             "samples": _trim(samples),
